@@ -156,6 +156,14 @@ def hand_shapes():
         ('SslRecord', 'many_cipher_kinds', lambda n: _ssl2_hello(min(n, 5000)), 32),
         ('TlsHandshakeClientHello', 'many_suites', lambda n: _client_hello(n, 0), 32),
         ('TlsHandshakeClientHello', 'many_extensions', lambda n: _client_hello(1, n), 32),
+        # items the parser treats specially: signalling suites (00ff, 5600), GREASE and unassigned codes
+        ('TlsHandshakeClientHello', 'many_scsv', lambda n: _client_hello_suites([0x00ff, 0x5600] * (n // 2)), 32),
+        ('TlsHandshakeClientHello', 'half_scsv', lambda n: _client_hello_suites([0x002f] * (n // 2) + [0x00ff, 0x5600] * (n // 4)), 32),
+        ('TlsHandshakeClientHello', 'scsv_first', lambda n: _client_hello_suites([0x5600, 0x00ff] * (n // 4) + [0x002f] * (n // 2)), 32),
+        ('TlsHandshakeClientHello', 'many_grease_suites', lambda n: _client_hello_suites([0x0a0a, 0x1a1a] * (n // 2)), 32),
+        ('TlsHandshakeClientHello', 'many_unassigned_suites', lambda n: _client_hello_suites([0xeeee] * n), 32),
+        ('TlsHandshakeClientHello', 'many_sni_extensions', lambda n: _client_hello_exts([(0, b'\x00\x04\x00\x00\x01a')] * n), 32),
+        ('TlsHandshakeClientHello', 'many_grease_extensions', lambda n: _client_hello_exts([(0x0a0a, b'')] * n), 32),
         ('SshKeyExchangeInit', 'many_names_in_every_list', lambda n: _kexinit(n), 4),
     ]
     # maximal declared count / length with (almost) no data: steps must not depend on the declared value
@@ -199,6 +207,16 @@ def _client_hello(nsuites, nexts):
     return tls_ref.client_hello(0x0303, 0, bytes(28), b'', [0x002f] * nsuites, [0], exts)
 
 
+def _client_hello_suites(suites):
+    from mc.ref import tls_ref
+    return tls_ref.client_hello(0x0303, 0, bytes(28), b'', suites[:32766], [0], None)
+
+
+def _client_hello_exts(exts):
+    from mc.ref import tls_ref
+    return tls_ref.client_hello(0x0303, 0, bytes(28), b'', [0x002f], [0], exts[:6000])
+
+
 def _kexinit(n):
     from mc.ref import ssh_ref
     lists = [['abc'] * n for _ in range(8)] + [[], []]
@@ -215,26 +233,33 @@ def generic_vector_shapes():
         try:
             items = c12.item_alphabet(cls)
             param = cls.get_param()
-            one = cls([items[0]])
-            wire1 = bytes(one.compose())
         except Exception:  # noqa
             continue
         w = param.item_num_size
-        if not w or cls.__name__ == 'TlsHandshakeHelloRandomBytes':
+        if not w or not items or cls.__name__ == 'TlsHandshakeHelloRandomBytes':
             continue
-        body = wire1[w:]
-        if not body:
-            continue
-        maxn = param.max_byte_num // len(body)
-        if maxn < 64:
-            continue
-        sep = b',' if hasattr(param, 'separator') else b''
+        picks = []
+        for it in (items[0], items[len(items) // 2], items[-1]):    # first, middle and last alphabet item
+            if not any(it is p or it == p for p in picks):
+                picks.append(it)
+        for k, it in enumerate(picks):
+            try:
+                wire1 = bytes(cls([it]).compose())
+            except Exception:  # noqa
+                continue
+            body = wire1[w:]
+            if not body:
+                continue
+            maxn = param.max_byte_num // len(body)
+            if maxn < 64:
+                continue
+            sep = b',' if hasattr(param, 'separator') else b''
 
-        def gen(n, body=body, w=w, maxn=maxn, sep=sep):
-            k = min(n, maxn if not sep else maxn // 2)
-            b = sep.join([body] * k)
-            return len(b).to_bytes(w, 'big') + b
-        out.append((cls.__name__, 'generic_repeat_item', gen, 16))
+            def gen(n, body=body, w=w, maxn=maxn, sep=sep):
+                k = min(n, maxn if not sep else maxn // 2)
+                b = sep.join([body] * k)
+                return len(b).to_bytes(w, 'big') + b
+            out.append((cls.__name__, 'generic_repeat_item' if k == 0 else 'generic_repeat_item_%d' % k, gen, 16))
     return out
 
 
